@@ -291,17 +291,12 @@ func (s *c13Sim) wf(o C13Op) bool {
 		default:
 			return false
 		}
-		// Known limit of the unchanged library, kept out of the generated
-		// domain and reported separately: append leaves spare capacity in a
-		// callback list of 3 (5-7, ...) entries, so two by-value copies of such
-		// a cell share the next slot.
-		per := map[string]int{}
-		for _, q := range s.ownRegs(o) {
-			per[q.Time]++
-			if per[q.Time] > 2 {
-				return false
-			}
-		}
+		// (Values carrying 3 or more callbacks in one time list used to be
+		// excluded here: on the pinned tree append left spare capacity in such
+		// a list, so two by-value copies of the cell shared the next slot and a
+		// later registration on one copy overwrote the other's - a genuine
+		// defect of the library, found by this harness and repaired in /repo;
+		// see KNOWN_FINDINGS.txt.  The class is generated like any other now.)
 		return true
 	case "items", "headers":
 		return o.N >= 0
@@ -1972,7 +1967,7 @@ func c13GenValues(r *RNG, tier string, add func([]C13Op)) {
 		times = c13Times
 	}
 	for _, tm := range times {
-		for prior := 0; prior <= 2; prior++ {
+		for prior := 0; prior <= 5; prior++ {
 			for _, target := range []string{"itself", "cell"} {
 				for _, kind := range []string{"", "twin"} {
 					var pre []C13Op
@@ -2421,7 +2416,7 @@ func init() {
 			"a callback that panics in one render pass (the harness recovers): that pass is void, every other pass before and after it must be complete - every firing render-time combination x shape; " +
 			"seeded random histories of up to 12 operations with up to 4 registrations (kinds, failures, panics, re-registered objects, handles, cell values, rows past the column capacity); " +
 			"a case is non-trivial when at least one invocation is expected or a registration must be refused; distinct = distinct spec; " +
-			"excluded (a limit of the unchanged library, reported): copying a cell value that carries 3 or more callbacks in one time list",
+			"cell values carrying up to 5 callbacks in one time list are copied (append capacity boundaries)",
 		Exhaustive: "all 48 owner-kind x time x target combinations x every owner instance x {earliest, last} registration point on 16 shapes; equal-callback pairs on every firing combination x shape; handle scenarios 4 widening methods x {10,12} columns x columns 0..2 x 5 column combinations x 4 registration points; failing pre-cell x 24 partner registrations x 2 orders on first and last cell of every shape; cell-value scenarios (stamp: 0-2 prior callbacks x 2 targets x 2 kinds x 3 layouts x 2 orders; moved cell: 6 sources x 2 positions x 3 times x 2 registration points x attached/detached); panicking callback on every firing render-time combination x shape",
 		Gen:        c13Gen,
 		Run:        c13Run,
